@@ -1070,6 +1070,27 @@ def same_def(e, g):
   return compare((e[0], e[1], ""), g) is None
 
 
+COMPAT_WIDER = {"int": ("float", "complex"), "float": ("complex",), "bytearray": ("bytes",)}
+
+
+def compat_narrowed(inf, dec):
+  """True if the declared type `dec` is the inferred type `inf` with a PEP 484 compat member dropped in favour of
+  its wider partner (Union[float, int] -> float; also below generics): what the printer may do to a PARAMETER
+  annotation and must never do to the type of a value B reads."""
+  mem = lambda c: list(c[1]) if isinstance(c, tuple) and c[0] == "U" else [c]
+  mi, md = mem(inf), mem(dec)
+  lost = [x for x in mi if x not in md]
+  if lost and all(x in mi for x in md):
+    return all(isinstance(x, str) and any(w in md for w in COMPAT_WIDER.get(x, ())) for x in lost)
+  if isinstance(inf, tuple) and isinstance(dec, tuple) and inf[0] == dec[0] and len(inf) == len(dec) and inf[0] in "GT":
+    a, b = (inf[2:], dec[2:]) if inf[0] == "G" else (inf[1:], dec[1:])
+    if inf[0] == "G" and inf[1] != dec[1]:
+      return False
+    diff = [(x, y) for x, y in zip(a, b) if x != y]
+    return bool(diff) and all(compat_narrowed(x, y) for x, y in diff)
+  return False
+
+
 def classify(name, m, want, g):
   """the narrow classes of mismatch that are listed known findings; everything else is `type-differs`."""
   if g is None or g[0] not in ("type", "alias"):
@@ -1126,9 +1147,14 @@ def compare_names(res, names, meta, exp, inferred, got, tainted, dropped, tr, su
       continue
     if ok_stub:
       # B has exactly the declared type; A's context-sensitive analysis of the same expression found another
-      # one (e.g. a more precise result of an unannotated function): not the hand-off's doing
+      # one (e.g. a more precise result of an unannotated function): not the hand-off's doing - unless the
+      # declaration is A's inference with a compat member collapsed away (int into float ...), which narrows
       if e_inf is not None:
         res["inferred_differs_from_declared"] += 1
+        if e_inf[0] == "type" and e_stub[0] == "type" and compat_narrowed(e_inf[1], e_stub[1]):
+          res["issues"].append({"transport": tr, "kind": "type-differs", "name": name, "source": m["what"],
+                                "what": "%s%s: A inferred %s, its stub declares and B sees %s (compat pair collapsed outside "
+                                        "a parameter annotation)" % (m["what"], suffix, show(e_inf[1]), show(e_stub[1]))})
       continue
     if m.get("constructed") and e_stub is None:
       # the oracle built this value / chose the arguments and the stub gives no closed declared type to hold B
